@@ -23,9 +23,23 @@ pub enum Op {
     Count,
     Collect,
     RevCollect,
+    // provided methods built on the required / forwarded ones (a wrong override would show here)
+    /// try_fold which breaks after having visited k (>= 1) items
+    TryFoldStop(usize),
+    TryRFoldStop(usize),
+    /// find() with a predicate that becomes true on the k-th remaining item (0-based)
+    FindNth(usize),
+    Position(usize),
+    RPosition(usize),
+    StepBy(usize),
+    SkipTake(usize, usize),
+    RevNth(usize),
+    /// only applied to iterators whose items are Ord (names())
+    Min,
+    Max,
 }
 
-#[derive(Clone, Copy, Debug, PartialEq, Eq)]
+#[derive(Clone, Copy, Debug, PartialEq, Eq, PartialOrd, Ord)]
 pub enum Val {
     D(D),
     S(&'static str),
@@ -46,6 +60,8 @@ pub trait Sink {
     fn count(&mut self, n: usize);
     /// one pair of iter().zip(names())
     fn pair(&mut self, v: D, s: &'static str);
+    /// result of position / rposition
+    fn opt_index(&mut self, i: Option<usize>);
 }
 
 pub type IterFn = fn(&[Op], &mut dyn Sink);
@@ -142,7 +158,122 @@ where
                 sink.seq_end();
                 return;
             }
+            Op::TryFoldStop(k) => {
+                let mut seen = 0usize;
+                let _ = it.try_fold((), |(), x| {
+                    sink.seq_item(conv(x));
+                    seen += 1;
+                    if seen >= k {
+                        Err(())
+                    } else {
+                        Ok(())
+                    }
+                });
+                sink.seq_end();
+                return;
+            }
+            Op::TryRFoldStop(k) => {
+                let mut seen = 0usize;
+                let _ = it.try_rfold((), |(), x| {
+                    sink.seq_item(conv(x));
+                    seen += 1;
+                    if seen >= k {
+                        Err(())
+                    } else {
+                        Ok(())
+                    }
+                });
+                sink.seq_end();
+                return;
+            }
+            Op::FindNth(k) => {
+                let mut c = 0usize;
+                let r = it.find(|_| {
+                    c += 1;
+                    c > k
+                });
+                sink.item(r.map(conv));
+                return;
+            }
+            Op::Position(k) => {
+                let mut c = 0usize;
+                let r = it.position(|_| {
+                    c += 1;
+                    c > k
+                });
+                sink.opt_index(r);
+                return;
+            }
+            Op::RPosition(k) => {
+                let mut c = 0usize;
+                let r = it.rposition(|_| {
+                    c += 1;
+                    c > k
+                });
+                sink.opt_index(r);
+                return;
+            }
+            Op::StepBy(s) => {
+                for x in it.step_by(if s == 0 { 1 } else { s }) {
+                    sink.seq_item(conv(x));
+                }
+                sink.seq_end();
+                return;
+            }
+            Op::SkipTake(a, b) => {
+                for x in it.skip(a).take(b) {
+                    sink.seq_item(conv(x));
+                }
+                sink.seq_end();
+                return;
+            }
+            Op::RevNth(k) => {
+                sink.item(it.rev().nth(k).map(conv));
+                return;
+            }
+            Op::Min | Op::Max => {
+                // needs Ord items: see run_history_ord
+                sink.seq_end();
+                return;
+            }
         }
         idx += 1;
     }
+}
+
+/// like `run_history`, for iterators whose items are `Ord`: a trailing `Min` / `Max` is applied
+/// through `Iterator::min` / `Iterator::max` themselves
+pub fn run_history_ord<I, T>(mut it: I, ops: &[Op], conv: fn(T) -> Val, sink: &mut dyn Sink)
+where
+    I: Iterator<Item = T> + DoubleEndedIterator + ExactSizeIterator,
+    T: Ord,
+{
+    if let Some((last, head)) = ops.split_last() {
+        if matches!(last, Op::Min | Op::Max) {
+            // the prefix contains no consuming operation
+            let mut idx = 0;
+            while idx < head.len() {
+                let op = head[idx];
+                sink.op(idx, op);
+                match op {
+                    Op::Next => sink.item(it.next().map(conv)),
+                    Op::NextBack => sink.item(it.next_back().map(conv)),
+                    Op::Nth(k) => sink.item(it.nth(k).map(conv)),
+                    Op::NthBack(k) => sink.item(it.nth_back(k).map(conv)),
+                    Op::Len => sink.len(it.len()),
+                    Op::SizeHint => {
+                        let (lo, hi) = it.size_hint();
+                        sink.size_hint(lo, hi)
+                    }
+                    _ => {}
+                }
+                idx += 1;
+            }
+            sink.op(head.len(), *last);
+            let r = if matches!(last, Op::Min) { it.min() } else { it.max() };
+            sink.item(r.map(conv));
+            return;
+        }
+    }
+    run_history(it, ops, conv, sink)
 }
